@@ -113,7 +113,7 @@ def mes_table(ctx):
     return _emit(d)
 
 
-@rule("PRECOND-CHECK", ["C08", "C01", "C20"], floor=4)
+@rule("PRECOND-CHECK", ["C08", "C01", "C20", "C05"], floor=4)
 def precond_check(ctx):
     """check_preconditions: a precondition with a fixed position must match exactly there; one without must match at
     some position from max(start, min_position) to the end of input; any failure answers false, all satisfied true."""
@@ -144,6 +144,14 @@ def precond_check(ctx):
         if fixed[0].endswith("=Some"):
             probe = "next(matches_iter(%s.operation, a1, %s.fixed_position as Some.0))" % (PC, PC)
             t = [g for g in gs if g.lstrip("!") in ("isSome(%s)" % probe, "variant(%s)" % probe) or g.lstrip("!").startswith("isSome(%s)" % probe) or g.startswith("variant(%s)=" % probe)]
+            FX = "%s.fixed_position as Some.0" % PC
+            beyond = [g for g in gs if g.lstrip("!") == "lt(len(a1.search), %s)" % FX]
+            if beyond and not beyond[0].startswith("!"):
+                # the position lies beyond the input: nothing can match there
+                _rec(d, "fixed|beyond-input-false", p.end == "return" and r == "false" and not t, "a fixed position beyond the end of the input must answer false without probing", loc)
+                continue
+            if t:
+                _rec(d, "fixed|position-within-input", bool(beyond) and beyond[0].startswith("!"), "the fixed position (a sum of match lengths, possibly saturated) is handed to matches_iter without a test against the input length: the operators assume position <= len(search) (e.g. Atom computes position + len: '^(?:a{9223372036854775808}|b{9223372036854775808}){2}c' panics with an overflow)", loc)
             if not t:
                 _rec(d, "fixed|probe", False, "a fixed-position precondition must be probed at its fixed position; guards %s" % gs[2:3], loc)
             else:
